@@ -69,6 +69,17 @@ func RunStress(seed int64, o StressOpts) *StressResult {
 	specsB := []gen.PipeSpec{gen.CopySpec(specsA[0]), gen.CopySpec(specsA[1])}
 	specsB[0].Def.Concurrency = 1 + specsA[0].Def.Concurrency%3
 	specsB[1].Def.Concurrency = 1 + specsA[1].Def.Concurrency%2
+	// ... and in every script line, so that the offline checker can tell which definition a job was built from
+	for i := range specsB {
+		for n, t := range specsB[i].Def.Tasks {
+			t.Script = append([]string{"echo variant-B " + n}, t.Script...)
+			specsB[i].Def.Tasks[n] = t
+		}
+		if specsB[i].Def.Env == nil {
+			specsB[i].Def.Env = map[string]string{}
+		}
+		specsB[i].Def.Env["VARIANT"] = "B"
+	}
 	out.Specs = specsA
 	maxConc := map[string]int{}
 	for i := range specsA {
@@ -361,6 +372,10 @@ func RunStress(seed int64, o StressOpts) *StressResult {
 		return id
 	}
 	res.Findings = append(res.Findings, CheckOffline(in, res.sit)...)
+	// C16 under concurrency: a job uses the definition that was in force while its schedule request was in flight
+	if o.Reloader && !o.RealRunner {
+		res.Findings = append(res.Findings, checkDefinitionVersions(evs, specsA, specsB, in.Name, res.sit)...)
+	}
 	// snapshot invariants
 	for _, v := range snaps {
 		exec := map[string]int{}
@@ -438,5 +453,116 @@ func RunStress(seed int64, o StressOpts) *StressResult {
 		}
 		res.Sample = map[string]any{"seed": seed, "opts": fmt.Sprintf("%+v", o), "runner_events_tail": j}
 	}
+	return out
+}
+
+// checkDefinitionVersions: the reloader alternates between variant A (initial) and B; the variant in force changes at some
+// instant inside each reload call. A job accepted by a schedule request [c,r] must be built from a variant that was
+// possibly in force during [c,r]: its commands and pipeline env (as seen by the monitored runner) tell which one it was.
+func checkDefinitionVersions(evs []core.Event, specsA, specsB []gen.PipeSpec, name func(string) string, sit func(prop, s string)) []Finding {
+	type change struct {
+		call, ret int64
+		to        string
+	}
+	var changes []change
+	open := map[int64]core.Event{}
+	type sched struct {
+		call, ret int64
+		job, pipe string
+	}
+	var scheds []sched
+	for _, e := range evs {
+		if e.Kind == core.KCall && (e.Op == "reload" || e.Op == "schedule") {
+			open[int64(e.Client)<<32|e.CallID] = e
+		}
+		if e.Kind == core.KRet {
+			c, ok := open[int64(e.Client)<<32|e.CallID]
+			if !ok {
+				continue
+			}
+			if e.Op == "reload" {
+				to := "A"
+				if c.Arg == "variant 0" {
+					to = "B"
+				}
+				changes = append(changes, change{c.Seq, e.Seq, to})
+			} else if e.Op == "schedule" && e.Res == "ok" {
+				scheds = append(scheds, sched{c.Seq, e.Seq, e.Job, e.Pipe})
+			}
+		}
+	}
+	scriptOf := func(specs []gen.PipeSpec, pipe, taskName string) []string {
+		for _, sp := range specs {
+			if sp.Name == pipe {
+				return sp.Def.Tasks[taskName].Script
+			}
+		}
+		return nil
+	}
+	possible := func(c, r int64) map[string]bool {
+		// version before the first change is A; a change takes effect somewhere inside its call
+		cur := "A"
+		out := map[string]bool{}
+		for _, ch := range changes {
+			if ch.ret < c {
+				cur = ch.to
+				continue
+			}
+			if ch.call > r {
+				break
+			}
+			// overlaps the schedule request: both the version before and after are possible
+			out[cur] = true
+			out[ch.to] = true
+			cur = ch.to
+		}
+		if len(out) == 0 {
+			out[cur] = true
+		}
+		return out
+	}
+	byJob := map[string]sched{}
+	for _, sc := range scheds {
+		byJob[sc.job] = sc
+	}
+	var out []Finding
+	for _, e := range evs {
+		if e.Kind != core.KRunEnter {
+			continue
+		}
+		sc, ok := byJob[e.Job]
+		if !ok {
+			continue
+		}
+		info, _ := e.Data.(core.RunInfo)
+		var is string
+		switch {
+		case eqStr(info.Commands, scriptOf(specsA, sc.pipe, e.Task)):
+			is = "A"
+		case eqStr(info.Commands, scriptOf(specsB, sc.pipe, e.Task)):
+			is = "B"
+		default:
+			is = "?"
+		}
+		envIs := "A"
+		if info.RunnerEnv["VARIANT"] == "B" {
+			envIs = "B"
+		}
+		pos := possible(sc.call, sc.ret)
+		sit("C16", fmt.Sprintf("concurrent reload: %d versions possible", len(pos)))
+		sit("C13", fmt.Sprintf("concurrent reload: %d versions possible", len(pos)))
+		if !pos[is] || is != envIs {
+			out = append(out, Finding{Props: []string{"C16", "C13"}, Sig: "C16:job-built-from-a-definition-not-in-force-at-acceptance", Detail: fmt.Sprintf("%s (pipeline %s) was accepted by a schedule request in flight during #%d..#%d, when definition variant(s) %v were in force, but its task %s ran the commands of variant %s with the pipeline env of variant %s", name(e.Job), sc.pipe, sc.call, sc.ret, keysOf(pos), e.Task, is, envIs), Step: -1})
+		}
+	}
+	return out
+}
+
+func keysOf(m map[string]bool) []string {
+	var out []string
+	for k := range m {
+		out = append(out, k)
+	}
+	sort.Strings(out)
 	return out
 }
